@@ -15,6 +15,7 @@ import (
 	"go/types"
 	"os"
 	"path/filepath"
+	"regexp"
 	"sort"
 	"strconv"
 	"strings"
@@ -43,15 +44,15 @@ type WParam struct {
 }
 
 type Clause struct {
-	Kind    string // requires ensures invariant decreases expr
-	Label   string
-	Text    string
-	Line    int
-	File    string
-	Wrapper string
-	Params  []WParam
-	RetType string
-	Unproved string // reason; clause is stated but not claimed
+	Kind     string // requires ensures invariant decreases expr
+	Label    string
+	Text     string
+	Line     int
+	File     string
+	Wrapper  string
+	Params   []WParam
+	RetType  string
+	Unproved string   // reason; clause is stated but not claimed
 	Props    []string // clause-level property tags ([label @C16,C01]); empty: the function's props
 }
 
@@ -92,33 +93,34 @@ type LoopSpec struct {
 }
 
 type Contract struct {
-	PkgPath  string
-	Key      string // "Cipher", "Writer.Flush", "Parameters.Parse$1"
-	IsIface  bool   // interface method contract: Key = "io.Reader.Read"
-	Sig      string // for iface: parameter list text
-	Props    []string
-	Requires []*Clause
-	Ensures  []*Clause
-	Assigns  []*AssignItem
+	PkgPath    string
+	Key        string // "Cipher", "Writer.Flush", "Parameters.Parse$1"
+	FuncType   string // funcval contract: the function type it applies to
+	IsIface    bool   // interface method contract: Key = "io.Reader.Read"
+	Sig        string // for iface: parameter list text
+	Props      []string
+	Requires   []*Clause
+	Ensures    []*Clause
+	Assigns    []*AssignItem
 	HasAssigns bool
-	Loops    map[int]*LoopSpec
-	Cases    []*CaseGroup
-	Impls    map[string][]string // interface type (as written) -> candidate dynamic types for dispatch
-	Inline   map[string]bool // callee keys to inline at call sites
-	Trusted  bool            // body not verified (assumed contract)
-	External bool            // function of another package (assumed contract)
-	NoBody   bool
-	Line     int
-	File     string
-	Lemma    bool
-	Calls    map[string]string // callee key -> "contract" | "inline" | "havoc"
-	Fd       *ast.FuncDecl
-	Lit      *ast.FuncLit
-	Obj      *types.Func
-	TypesSig *types.Signature
-	Pkg      *packages.Package
-	ScopePos token.Pos
-	ResNames []string
+	Loops      map[int]*LoopSpec
+	Cases      []*CaseGroup
+	Impls      map[string][]string // interface type (as written) -> candidate dynamic types for dispatch
+	Inline     map[string]bool     // callee keys to inline at call sites
+	Trusted    bool                // body not verified (assumed contract)
+	External   bool                // function of another package (assumed contract)
+	NoBody     bool
+	Line       int
+	File       string
+	Lemma      bool
+	Calls      map[string]string // callee key -> "contract" | "inline" | "havoc"
+	Fd         *ast.FuncDecl
+	Lit        *ast.FuncLit
+	Obj        *types.Func
+	TypesSig   *types.Signature
+	Pkg        *packages.Package
+	ScopePos   token.Pos
+	ResNames   []string
 }
 
 func (c *Contract) FullName() string { return shortPkg(c.PkgPath) + "." + c.Key }
@@ -136,7 +138,7 @@ type ContractSet struct {
 	Errs  []string
 }
 
-var clauseKeywords = map[string]bool{"impls": true, "cases": true, "func": true, "iface": true, "props": true, "requires": true, "ensures": true,
+var clauseKeywords = map[string]bool{"funcval": true, "impls": true, "cases": true, "func": true, "iface": true, "props": true, "requires": true, "ensures": true,
 	"assigns": true, "loop": true, "inline": true, "trusted": true, "lemma": true, "call": true, "unproved": true}
 
 // ParseContractFile reads the //@ lines of one contract file.
@@ -202,9 +204,22 @@ func ParseContractFile(path, pkgPath string, cs *ContractSet) {
 			return c
 		}
 		switch word {
-		case "func", "iface", "lemma":
+		case "func", "iface", "lemma", "funcval":
 			cur = &Contract{PkgPath: pkgPath, Loops: map[int]*LoopSpec{}, Inline: map[string]bool{}, Calls: map[string]string{}, Line: ln, File: path}
-			if word == "iface" {
+			if word == "funcval" {
+				// funcval func(io.Writer) wsflate.Compressor :: (w io.Writer) (c Compressor)
+				// contract assumed of every function value of that type (user callbacks)
+				parts := strings.SplitN(rest, "::", 2)
+				if len(parts) != 2 {
+					addErr(ln, "funcval needs '<func type> :: <signature with names>'")
+					cur = nil
+					continue
+				}
+				cur.IsIface = true
+				cur.FuncType = strings.TrimSpace(parts[0])
+				cur.Key = "callback:" + cur.FuncType
+				cur.Sig = strings.TrimSpace(parts[1])
+			} else if word == "iface" {
 				cur.IsIface = true
 				// iface io.Reader.Read(p []byte) (n int, err error)
 				j := strings.Index(rest, "(")
@@ -1210,6 +1225,10 @@ func GenerateWrappers(pkg *packages.Package, cs *ContractSet) (string, []string)
 func (g *genCtx) compileAssign(c *Contract, a *AssignItem, si *sigInfo, pos token.Pos, mode string) {
 	t := strings.TrimSpace(a.Text)
 	cl := &Clause{Kind: "assigns", Label: "assigns", Line: c.Line, File: c.File}
+	if t == "everything" {
+		a.Kind = "everything"
+		return
+	}
 	switch {
 	case strings.HasPrefix(t, "*"):
 		a.Kind = "obj"
@@ -1284,10 +1303,15 @@ func (g *genCtx) compileAssign(c *Contract, a *AssignItem, si *sigInfo, pos toke
 
 func (g *genCtx) compileIface(c *Contract) {
 	// iface io.Reader.Read(p []byte) (n int, err error): clauses see "self" plus the declared names.
-	j := strings.LastIndex(c.Key, ".")
-	ifaceName := c.Key[:j]
-	if strings.HasPrefix(ifaceName, g.pkg.Name+".") {
-		ifaceName = strings.TrimPrefix(ifaceName, g.pkg.Name+".")
+	var ifaceName string
+	if c.FuncType != "" {
+		ifaceName = strings.ReplaceAll(c.FuncType, g.pkg.Name+".", "")
+	} else {
+		j := strings.LastIndex(c.Key, ".")
+		ifaceName = c.Key[:j]
+		if strings.HasPrefix(ifaceName, g.pkg.Name+".") {
+			ifaceName = strings.TrimPrefix(ifaceName, g.pkg.Name+".")
+		}
 	}
 	// generate wrappers directly by text: parameters are self + sig params (+ results for ensures)
 	params, results, err := splitSig(c.Sig)
@@ -1295,12 +1319,19 @@ func (g *genCtx) compileIface(c *Contract) {
 		g.errs = append(g.errs, fmt.Sprintf("%s:%d: %v", c.File, c.Line, err))
 		return
 	}
-	if k := strings.Index(ifaceName, "."); k >= 0 {
+	if k := strings.Index(ifaceName, "."); k >= 0 && c.FuncType == "" {
 		// import the package named by its last path element; the contract file must import it too
 		pn := ifaceName[:k]
 		for _, imp := range g.pkg.Imports {
 			if imp.Name == pn {
 				g.imports[imp.PkgPath] = pn
+			}
+		}
+	}
+	if c.FuncType != "" {
+		for _, imp := range g.pkg.Imports {
+			if regexp.MustCompile(`(^|[^A-Za-z0-9_])` + regexp.QuoteMeta(imp.Name) + `\.`).MatchString(ifaceName + " " + c.Sig) {
+				g.imports[imp.PkgPath] = imp.Name
 			}
 		}
 	}
@@ -1355,6 +1386,9 @@ func (g *genCtx) compileIface(c *Contract) {
 		t := strings.TrimSpace(a.Text)
 		cl := &Clause{Kind: "assigns", Label: "assigns", Line: c.Line, File: c.File}
 		switch {
+		case t == "everything":
+			a.Kind = "everything"
+			continue
 		case strings.HasPrefix(t, "bytes(") && strings.HasSuffix(t, ")"):
 			a.Kind = "bytes"
 			cl.Text = t[6 : len(t)-1]
@@ -1435,7 +1469,6 @@ func splitSig(sig string) (params, results []string, err error) {
 	}
 	return params, results, nil
 }
-
 
 // externalFunc resolves keys like "io.ReadFull" or "bufio.Reader.ReadSlice" to functions of imported packages.
 func (g *genCtx) externalFunc(c *Contract) (*types.Func, bool) {
